@@ -38,6 +38,16 @@ pub fn worker_main(def: &PropDef, tier: Tier, seed: u64, start: u64, stride: u64
         }
         let mut delta = Delta::default();
         (def.run)(&env, k, &mut delta);
+        if k < 4 && delta.samples.is_empty() {
+            // the scenario ended before its own sample point (a violation or an early exit): still show
+            // the reader which case this was and what it counted
+            delta.samples.push(serde_json::json!({
+                "scenario_index": k, "seed": seed,
+                "note": "scenario ended before its sample point; it is reproducible from (property, seed, scenario_index)",
+                "evaluations": delta.evaluations, "violations_in_scenario": delta.violations.len(),
+                "tallies": delta.tallies,
+            }));
+        }
         {
             let mut o = stdout.lock();
             writeln!(o, "E {k} {}", delta.to_json()).unwrap();
